@@ -53,12 +53,30 @@ def gen(rng, knobs):
         h.add(ev)
         if rng.random() < 0.15:
             h.add(h.regular())
-    return {"backend": backend, "ops": h.ops}
+    if rng.random() < 0.3:
+        # versions of one address stored at overlapping times (different connections of a real relay): the newest
+        # accepted version survives whatever the interleaving
+        a, k = rng.choice([0, 1]), rng.choice([0, 3, 10000, 10005, 19999, 30000, 39999])
+        d = rng.choice(["a", "", None]) if model.is_param_replaceable(k) else None
+        base = histgen.T0 - 50
+        v = [h.replaceable(author=a, kind=k, created_at=base + dt, d=d) for dt in rng.sample(range(1, 9), rng.choice([2, 3]))]
+        first = h.replaceable(author=a, kind=k, created_at=base, d=d)
+        h.add(first)
+        batch = list(v)
+        if rng.random() < 0.5:
+            batch.append(h.regular())
+        rng.shuffle(batch)
+        h.ops.append(["cadd", batch])
+    pools = {}
+    if backend == "sql" and rng.random() < 0.5:
+        pools = {"num_concurrent_adds": rng.choice([2, 4, 8])}
+    return {"backend": backend, "ops": h.ops, "storage_opts": pools}
 
 
 def sample(case):
     return {"backend": case["backend"],
-            "ops": [oracles.brief(o[1]) for o in case["ops"] if o[0] == "add"]}
+            "ops": [oracles.brief(o[1]) if o[0] == "add" else ["cadd", [oracles.brief(e) for e in o[1]]]
+                    for o in case["ops"] if o[0] in ("add", "cadd")]}
 
 
 def dclass(ev):
@@ -95,10 +113,56 @@ def relation(E, x):
     return "other-d"
 
 
+def check_concurrent(o, backend, viol):
+    """a batch of overlapping submissions: judged as a whole"""
+    pre, post = o["pre"], o["post"]
+    batch = o["op"][1]
+    acc = [e for e, r in zip(batch, o["res"][1]) if r[0] == "ok" and r[1]]
+    pool = dict(pre)
+    for e in acc:
+        if not model.is_ephemeral(e["kind"]):
+            pool[e["id"]] = e
+    newest = {}
+    for i, x in pool.items():
+        a = model.address(x)
+        if a is None:
+            continue
+        if a not in newest or x["created_at"] > newest[a][0]:
+            newest[a] = (x["created_at"], {i})
+        elif x["created_at"] == newest[a][0]:
+            newest[a][1].add(i)
+    for a, (t, ids) in newest.items():
+        if not (ids & set(post)):
+            viol.append({"cls": "newest-lost", "sig": "newest-lost|%s|concurrent|%s" % (backend, kclass(a[1])),
+                         "detail": {"address": list(map(str, a)), "t": t, "results": o["res"][1],
+                                    "stored": [oracles.brief(x) for x in post.values() if model.address(x) == a]}})
+    addrs = {model.address(e) for e in acc if model.address(e) is not None}
+    for i in set(pre) - set(post):
+        x = pre[i]
+        if model.address(x) is None or model.address(x) not in addrs:
+            viol.append({"cls": "wrongly-removed", "sig": "wrongly-removed|%s|concurrent|victim=%s" % (
+                backend, "regular" if model.address(x) is None else "other-address"),
+                         "detail": {"victim": oracles.brief(x)}})
+    # versions that were already stored before the batch and are older than an accepted one: gone
+    for i, x in pre.items():
+        a = model.address(x)
+        if a in addrs and i in post and any(model.address(e) == a and e["created_at"] > x["created_at"] for e in acc):
+            viol.append({"cls": "not-superseded", "sig": "not-superseded|%s|concurrent|%s" % (backend, kclass(x["kind"])),
+                         "detail": {"still_stored": oracles.brief(x)}})
+    for e in acc:
+        if model.address(e) is None and e["id"] not in post and not model.is_ephemeral(e["kind"]):
+            viol.append({"cls": "wrongly-removed", "sig": "wrongly-removed|%s|concurrent|victim=batch-regular" % backend,
+                         "detail": {"victim": oracles.brief(e)}})
+
+
 def check(obs, backend):
     viol = []
     nontrivial = False
     for o in obs:
+        if o["op"][0] == "cadd" and "post" in o:
+            check_concurrent(o, backend, viol)
+            nontrivial = True
+            continue
         if o["op"][0] != "add" or "post" not in o:
             continue
         E = o["op"][1]
@@ -160,14 +224,16 @@ def check(obs, backend):
 
 
 def run(case, sim):
-    w, obs = store.run_store(sim, case["backend"], case["ops"], full_gc=True)
+    w, obs = store.run_store(sim, case["backend"], case["ops"], full_gc=True,
+                             storage_opts=case.get("storage_opts") or None)
     viol, nontrivial = check(obs, case["backend"])
     seen, v2 = set(), []
     for v in viol:
         if v["sig"] not in seen:
             seen.add(v["sig"])
             v2.append(v)
-    shape = [(o[1]["pubkey"][:4], o[1]["kind"], dclass(o[1]), o[1]["created_at"]) for o in case["ops"]]
+    shape = [(o[1]["pubkey"][:4], o[1]["kind"], dclass(o[1]), o[1]["created_at"]) if o[0] != "cadd" else
+             ("cadd", tuple((e["kind"], e["created_at"]) for e in o[1])) for o in case["ops"]]
     return {"violations": v2, "nontrivial": nontrivial,
             "probes": {"backend_" + case["backend"]: 1, "had_predecessor": int(nontrivial),
                        "errors": sum(1 for o in obs if o["res"][0] == "err")},
